@@ -71,6 +71,21 @@ partial def ceOf : Sexp → Option CE
     some (everyCE cs)
   | _ => none
 
+partial def nexpOf : Sexp → Option NExp
+  | .list [.atom "at", i, sz] => do some (.atom (← i.toNat?) (← sz.toNat?))
+  | .list [.atom "num", n] => do some (.num (← n.toNat?))
+  | .list [.atom "add", a, b] => do some (.add (← nexpOf a) (← nexpOf b))
+  | .list [.atom "mul", a, b] => do some (.mul (← nexpOf a) (← nexpOf b))
+  | .list [.atom "suc", a] => do some (.suc (← nexpOf a))
+  | _ => none
+
+partial def nexpTo : NExp → Sexp
+  | .atom i sz => .list [.atom "at", Sexp.ofNat i, Sexp.ofNat sz]
+  | .num n => .list [.atom "num", Sexp.ofNat n]
+  | .add a b => .list [.atom "add", nexpTo a, nexpTo b]
+  | .mul a b => .list [.atom "mul", nexpTo a, nexpTo b]
+  | .suc a => .list [.atom "suc", nexpTo a]
+
 def errTo : Err → String
   | .conv => "conv"
   | .invalid => "invalid"
@@ -90,6 +105,10 @@ def handle (line : String) : String :=
       | .ok (l, r) => toString (Sexp.list [.atom "ok", termTo l, termTo r])
       | .error e => toString (Sexp.list [.atom "err", .atom (errTo e)])
     | _, _, _ => "bad-op"
+  | some (.list [.atom "natnorm", one, t]) =>
+    match one.toNat?, nexpOf t with
+    | some o, some t => toString (nexpTo (norm o t))
+    | _, _ => "bad-op"
   | _ => "bad-op"
 
 end Holpy.C10.Driver
